@@ -13,6 +13,11 @@ import os
 from .. import bind, run, fsx, fspat, refglob, fscommon, ref_aut, pat
 from wcmatch import glob as G, wcmatch as WM
 
+def _leaves(paths):
+    """Some result lies outside the scratch tree (reached through `..`): a directory other processes write to."""
+    return any(x == '..' or x.startswith('../') or '/../' in x or x.endswith('/..') for x in paths)
+
+
 ID = 'C06'
 LEVEL = 'exploration'
 REPLAY_DEADLINE = 120
@@ -129,7 +134,7 @@ def check_state(desc, sc, pats, flagsets, res):
                 finally:
                     os.close(fd)
                 res.n['evaluations'] += 1
-                if got_fd is None or sorted(got_fd) != sorted(got):
+                if (got_fd is None or sorted(got_fd) != sorted(got)) and not _leaves(list(got) + list(got_fd or [])):
                     res.add_violation(ID, run.viol('dir_fd-differs', inp, sorted(got), got_fd if got_fd is None else sorted(got_fd)))
                 # ... and as bytes
                 with fsx.ScandirMonitor(HORIZON):
@@ -138,7 +143,7 @@ def check_state(desc, sc, pats, flagsets, res):
                     except fsx.Horizon:
                         got_b = None
                 res.n['evaluations'] += 1
-                if got_b != sorted(got):
+                if got_b != sorted(got) and not _leaves(list(got) + list(got_b or [])):
                     res.add_violation(ID, run.viol('bytes-differs', inp, sorted(got), got_b))
             # (a) reference
             try:
